@@ -34,7 +34,8 @@ Spec == Init /\ [][Next]_vars
 
 AutoFrames(s) == [j \in 1..(Len(s.stack) + 1) |->
                     LET f == IF j <= Len(s.stack) THEN s.stack[j] ELSE s.fr IN <<f.t, f.n, f.names>>]
-ModelFrames(stk, ad) == [j \in 1..Len(stk) |-> <<stk[j].t, stk[j].n, IF ad THEN {} ELSE stk[j].names>>]
+ModelFrames(x, ad) == [j \in 1..(EDepth(x) + 1) |->
+                          LET f == FrameAt(x, j - 1) IN <<f.t, f.n, IF ad THEN {} ELSE f.names>>]
 
 OutInv ==
     LET F == Fmts[fi]
@@ -42,7 +43,7 @@ OutInv ==
         s == Finish(Run(Opt(F.ai, F.ad, MaxD), e.out)) IN
     /\ ~s.dead
     /\ s.lx = "ws"
-    /\ AutoFrames(s) = ModelFrames(e.stk, F.ad)
+    /\ AutoFrames(s) = ModelFrames(e, F.ad)
 
 EmitInv == (EmitCases /\ Len(hist) = MaxCalls) =>
               PrintT(ToJson(<<Fmts[fi], [i \in 1..Len(hist) |-> Calls[hist[i][1]]], hist, e.out>>))
